@@ -87,7 +87,7 @@ def matches(exp, out):
 def _match_plain(exp, out):
     if isinstance(exp, dict) and "rej" in exp:
         return (isinstance(out, dict) and "exc" in out and (out["exc"] in exp["rej"] or "*" in exp["rej"])
-                and ("late" not in out or "late" in exp))
+                and ("late" not in out or "late" in exp) and ("after" not in exp or out.get("after") == exp["after"]))
     return exp == out
 
 
@@ -100,6 +100,8 @@ def first_diff(exp, out, path=""):
     if isinstance(exp, dict) and "rej" in exp:
         if isinstance(out, dict) and "exc" in out and "late" in out and "late" not in exp:
             return (path + "." if path else "") + "packed-then-failed"   # octets were emitted although packing must fail
+        if isinstance(out, dict) and "exc" in out and "after" in exp and out.get("after") != exp["after"]:
+            return (path + "." if path else "") + "state-after-refusal"
         if isinstance(out, dict) and "exc" in out:
             return (path + "." if path else "") + "exc.family"
         return (path + "." if path else "") + "accept"      # accepted although it must be refused
